@@ -386,6 +386,16 @@ def py_cmp(op, x, y):
 # one function
 # --------------------------------------------------------------------------------------------------------------
 
+class St(set):
+    """definitely-assigned names on the current path + the names currently known to hold a constant"""
+    def __init__(self, it=(), consts=None):
+        super().__init__(it)
+        self.consts = dict(consts or {})
+
+    def fork(self):
+        return St(self, self.consts)
+
+
 class Param:
     """A Lean parameter: a C argument (`origin = ('arg', i)`) or a field read through pointer argument i
     (`origin = ('field', i, path)`)."""
@@ -454,7 +464,7 @@ class FnTranslator:
         self.fuel = list(spec.get("fuel", []))
         self.bases = {}
         self.seed = {}
-        self.st = set()
+        self.st = St()
         self.always = set()
         self.free_params = []
 
@@ -570,6 +580,8 @@ class FnTranslator:
             if v["lean"] not in st and v["lean"] not in self.always:
                 raise Unsupported("`%s` may be read before it is assigned" % v["lean"])
             self.log.append(("r", v["lean"], v["ct"]))
+            if v["lean"] in st.consts:
+                return lit(st.consts[v["lean"]], v["ct"])
             return V(v["lean"], v["ct"])
         if lv[0] == "field":
             _, base, path, ct = lv
@@ -581,6 +593,8 @@ class FnTranslator:
                     raise Unsupported("field `%s` of a fresh object is read before it is written" % path)
                 base.reads[path] = ct
             self.log.append(("r", nm, ct))
+            if nm in st.consts:
+                return lit(st.consts[nm], ct)
             return V(nm, ct)
         if lv[0] == "table":
             _, t, idx = lv
@@ -853,6 +867,7 @@ class FnTranslator:
                 raise Unsupported("assignment to `%s`" % info["lean"])
             v = convert(v, info["ct"])
             st.add(info["lean"])
+            self.set_const(st, info["lean"], v)
             self.log.append(("w", info["lean"], info["ct"]))
             return ["let %s : %s := %s" % (info["lean"], info["ct"].lean(), v.text)]
         if lv[0] == "field":
@@ -863,9 +878,17 @@ class FnTranslator:
             nm = base.lean(path)
             base.writes[path] = ct
             st.add(nm)
+            self.set_const(st, nm, v)
             self.log.append(("w", nm, ct))
             return ["let %s : %s := %s" % (nm, ct.lean(), v.text)]
         raise Unsupported("assignment to a table element or global")
+
+    @staticmethod
+    def set_const(st, nm, v):
+        if v.const is not None:
+            st.consts[nm] = v.const
+        else:
+            st.consts.pop(nm, None)
 
     def expr_stmt(self, s, st):
         """an expression statement: assignment, compound assignment, ++/--, or something without effect"""
@@ -979,6 +1002,7 @@ class FnTranslator:
                 self.st = st
                 v = convert(self.val(init[0]), ct)
                 st.add(nm)
+                self.set_const(st, nm, v)
                 self.log.append(("w", nm, ct))
                 lines.append("let %s : %s := %s" % (nm, ct.lean(), v.text))
         return lines
@@ -1012,8 +1036,8 @@ class FnTranslator:
                     continue
                 if self.may_return(s):
                     rest = stmts[i + 1:]
-                    a = self.block(th, set(st), lambda st2: self.block(rest, st2, tail))
-                    b = self.block(el, set(st), lambda st2: self.block(rest, st2, tail))
+                    a = self.block(th, st.fork(), lambda st2: self.block(rest, st2, tail))
+                    b = self.block(el, st.fork(), lambda st2: self.block(rest, st2, tail))
                     return lines + ["if %s then" % cc] + ["  " + x for x in a] + ["else"] + ["  " + x for x in b]
                 lines += self.if_join(cc, th, el, st)
             elif k in ("DoStmt", "WhileStmt", "ForStmt"):
@@ -1039,7 +1063,7 @@ class FnTranslator:
         # dry run to learn which outer variables the branches assign
         mark = len(self.log)
         snap = self.snapshot()
-        sa, sb = set(st), set(st)
+        sa, sb = st.fork(), st.fork()
         self.block(th, sa, lambda s2: [])
         self.block(el, sb, lambda s2: [])
         ws = self.written_in(mark)
@@ -1063,12 +1087,13 @@ class FnTranslator:
                         self.touch_field_input(nm)
                 return [res]
             return t
-        sa, sb = set(st), set(st)
+        sa, sb = st.fork(), st.fork()
         a = self.block(th, sa, tail_for(sa))
         b = self.block(el, sb, tail_for(sb))
         for nm, ct in ws:
             self.log.append(("w", nm, ct))
             st.add(nm)
+            st.consts.pop(nm, None)
         tys = " × ".join(ct.lean() for _, ct in ws)
         if len(ws) == 1:
             return ["let %s : %s :=" % (names[0], tys), "  if %s then" % cc] + ["    " + x for x in a] + ["  else"] + ["    " + x for x in b]
@@ -1143,7 +1168,8 @@ class FnTranslator:
         # dry run: which outer names the loop writes / reads
         mark = len(self.log)
         snap = self.snapshot()
-        s1 = set(st)
+        s1 = st.fork()
+        s1.consts = {}          # conservative: every branch of the body is visited, every read is logged
         self.block(self.stmts_of(body), s1, lambda s2: [])
         if inc is not None:
             self.expr_stmt(inc, s1)
@@ -1171,7 +1197,9 @@ class FnTranslator:
         res = self.tuple_text(cnames)
         rty = " × ".join(ct.lean() for _, ct in carried)
         rec = "%s fuel %s" % (name, " ".join(cnames + [r[0] for r in ro]))
-        s2 = set(st)
+        for nm in cnames:
+            st.consts.pop(nm, None)
+        s2 = st.fork()
         lines = []
         if k == "DoStmt":
             def tail(s3):
@@ -1217,7 +1245,7 @@ class FnTranslator:
         if cn.get("kind") == "BinaryOperator" and cn.get("opcode") in ("<", "<=", "!="):
             a, b = inner(cn)
             try:
-                self.st = set()
+                self.st = St()
                 bound = self.val(b)
             except Unsupported:
                 bound = None
@@ -1270,7 +1298,7 @@ class FnTranslator:
             self.k.ret = None if rt.kind == "v" else rt
             self.out_keys = out_keys
             self.bases = {}
-            st = set()
+            st = St()
             for i, p in enumerate(pdecls):
                 ts = p["type"].get("desugaredQualType", p["type"]["qualType"])
                 ct = parse_type_str(ts) or parse_type_str(p["type"]["qualType"])
